@@ -577,7 +577,9 @@ impl IggyConsumer {
         let client = self.client.clone();
         let count = self.batch_size;
         let auto_commit_after_polling = self.auto_commit_after_polling;
-        let auto_commit_enabled = self.auto_commit != AutoCommit::Disabled;
+        // The interval modes store the consumed offset in the background on their own.
+        let auto_commit_enabled =
+            matches!(self.auto_commit, AutoCommit::When(_) | AutoCommit::After(_));
         let interval = self.poll_interval_micros;
         let last_polled_at = self.last_polled_at.clone();
         let can_poll = self.can_poll.clone();
@@ -585,6 +587,7 @@ impl IggyConsumer {
         let last_stored_offset = self.last_stored_offsets.clone();
         let last_consumed_offset = self.last_consumed_offsets.clone();
         let allow_replay = self.allow_replay;
+        let store_offset_sender = self.store_offset_sender.clone();
 
         async move {
             if interval > 0 {
@@ -629,17 +632,12 @@ impl IggyConsumer {
                     last_consumed_offset.insert(partition_id, AtomicU64::new(0));
                 }
 
+                let mut already_consumed = false;
                 if !allow_replay && has_consumed_offset {
                     polled_messages
                         .messages
                         .retain(|message| message.offset > consumed_offset);
-                    if polled_messages.messages.is_empty() {
-                        return Ok(PolledMessages {
-                            messages: EMPTY_MESSAGES,
-                            current_offset: polled_messages.current_offset,
-                            partition_id,
-                        });
-                    }
+                    already_consumed = polled_messages.messages.is_empty();
                 }
 
                 let stored_offset;
@@ -665,27 +663,19 @@ impl IggyConsumer {
                 );
 
                 if !allow_replay
-                    && (has_consumed_offset && polled_messages.current_offset == consumed_offset)
+                    && (has_consumed_offset
+                        && (already_consumed || polled_messages.current_offset == consumed_offset))
                 {
                     trace!("No new messages to consume in partition ID: {partition_id}, topic: {topic_id}, stream: {stream_id}, consumer: {consumer}");
-                    if auto_commit_enabled && stored_offset < consumed_offset {
+                    if auto_commit_enabled
+                        && (stored_offset < consumed_offset || consumed_offset == 0)
+                    {
                         trace!("Auto-committing the offset: {consumed_offset} in partition ID: {partition_id}, topic: {topic_id}, stream: {stream_id}, consumer: {consumer}");
-                        client
-                            .read()
-                            .await
-                            .store_consumer_offset(
-                                &consumer,
-                                &stream_id,
-                                &topic_id,
-                                Some(partition_id),
-                                consumed_offset,
-                            )
-                            .await?;
-                        if let Some(stored_offset_entry) = last_stored_offset.get(&partition_id) {
-                            stored_offset_entry.store(consumed_offset, ORDERING);
-                        } else {
-                            last_stored_offset
-                                .insert(partition_id, AtomicU64::new(consumed_offset));
+                        // Goes through the same queue as the other commits, so that it cannot overtake them.
+                        if let Err(error) =
+                            store_offset_sender.send((partition_id, consumed_offset))
+                        {
+                            error!("Failed to send offset to store: {error}");
                         }
                     }
 
